@@ -25,7 +25,7 @@ type C09Sc struct {
 }
 
 var c09Outcomes = []ItemSc{
-	{Tok: "ok"}, {Tok: "et"}, {Tok: "ep"}, {Tok: "pe"}, {Tok: "ps"}, {Tok: "pi"}, {Op: "unrouted", Tok: "ok"}, {Tok: "ok", Ext: "critical"},
+	{Tok: "ok"}, {Tok: "et"}, {Tok: "ep"}, {Tok: "pe"}, {Tok: "ps"}, {Tok: "pi"}, {Op: "unrouted", Tok: "ok"}, {Tok: "ok", Ext: "critical"}, {Op: "discover", Tok: "ok"},
 	{Tok: "pS"}, {Tok: "pn"}, {Tok: "ok", Ext: "plain"}, {Tok: "y1,ok"}, {Tok: "y2,et"}, {Tok: "pk"}, {Tok: "pK"}, {Tok: "pm"},
 }
 
@@ -190,6 +190,18 @@ func checkBatch(x *X, prop string, rs *ReqSc, prefix string, supported []kmip.Pr
 			gotOK := ri.ResultStatus == kmip.ResultStatusSuccess
 			if gotOK != wantOK[i] {
 				mismatch = fmt.Sprintf("item %d status %v, want success=%v", i, ri.ResultStatus, wantOK[i])
+			} else if gotOK && rs.Items[i].Op == "discover" {
+				// (the executor answers with the request payload type, which has the same wire form: both accepted)
+				n := -1
+				switch p := ri.ResponsePayload.(type) {
+				case *payloads.DiscoverVersionsResponsePayload:
+					n = len(p.ProtocolVersion)
+				case *payloads.DiscoverVersionsRequestPayload:
+					n = len(p.ProtocolVersion)
+				}
+				if n <= 0 {
+					mismatch = fmt.Sprintf("item %d: built-in discovery answered with %v", i, ri.ResponsePayload)
+				}
 			} else if gotOK {
 				p, _ := ri.ResponsePayload.(*payloads.ActivateResponsePayload)
 				if p == nil || tokenID(p.UniqueIdentifier) != fmt.Sprintf("%s.%d", prefix, i) {
